@@ -49,6 +49,15 @@ def run(tier, vd):
     r3b["viol"] = [v for v in r3["viol"] if v["rule"] in ("K2", "PANIC")]
     report_viols(vd, "C08", r3b, {"world": "frag", "seed": sd}, lambda v: {"rule": v["rule"], "world": "frag"}, lambda v: "frag %s %s" % (v["rule"], v["p"]))
 
+    # K2 on datagram traffic: UDP / ICMP checksums of everything the neigh world's interface emits, including UDP datagrams
+    # whose checksum computes to zero (the field must then carry 0xffff, over IPv4 and IPv6)
+    nfz = netcommon.neigh_traces("quick", sd, "c08")
+    r4 = validate_traces("NeighTrace", nfz, parallel=8)
+    vd.add_validation(r4)
+    r4b = dict(r4)
+    r4b["viol"] = [v for v in r4["viol"] if v["rule"] in ("K2", "PANIC")]
+    report_viols(vd, "C08", r4b, {"world": "neigh", "seed": sd}, lambda v: {"rule": v["rule"], "world": "neigh"}, lambda v: "neigh %s %s" % (v["rule"], v["p"]))
+
     def mut(e):
         if e.get("ev") == "csum" and e.get("len", 0) > 3:
             e["res"] = (e["res"] + 1) % 65536
@@ -68,5 +77,7 @@ def replay(obj, vd):
     elif w == "frag":
         from checks import c12
         c12.replay(obj, vd)
+    elif w == "neigh":
+        netcommon.replay(obj, vd, "C08")
     else:
         raise ToolError("re-run bin/check C08 (checksum vectors are regenerated deterministically from the seed)")
